@@ -146,7 +146,11 @@ func runDead(rc *core.RunCtx) {
 					s.target = actor.NewPID(d.PID.Address, d.PID.ID)
 				}
 			}
-			switch g.Pick(3, 2, 2, 1, 1) {
+			switch g.Pick(6, 4, 4, 2, 2, 1) {
+			case 5:
+				// the undeliverable message is itself an event value (a monitor that
+				// forwards dead letters to a supervisor that has gone away)
+				s.payload = actor.DeadLetterEvent{Target: actor.NewPID("local", "x/inner"), Message: fmt.Sprintf("inner-%d", nid)}
 			case 4:
 				// an untyped nil message value (once per run, so that its events are attributable)
 				if nilSent || s.kind == 4 {
